@@ -77,6 +77,7 @@ type Engine struct {
 	readsets  map[*ssa.Function]map[string]bool
 	prepass   map[*ssa.Function]bool
 	recReads  map[*ssa.Function][]recRead
+	pureReads map[*ssa.Function][]recRead
 	ghostRec  map[*ssa.Function]bool
 }
 
@@ -94,7 +95,7 @@ func NewEngine(w *World) *Engine {
 	return &Engine{W: w, oblSeen: map[string]bool{}, Trivial: map[string]int{}, Inlined: map[string]int{},
 		Havocked: map[string]int{}, UsedSpecs: map[string]int{}, AssumedDep: map[string]int{},
 		closures: map[int64]*closure{}, loops: map[*ssa.Function]*loopInfo{}, modsets: map[*ssa.Function]map[string]bool{},
-		MaxPaths: 20000, MaxSteps: 400000, inlineCap: 400, unfolding: map[*ssa.Function]bool{}, prepass: map[*ssa.Function]bool{}, recReads: map[*ssa.Function][]recRead{}, ghostRec: map[*ssa.Function]bool{}}
+		MaxPaths: 20000, MaxSteps: 400000, inlineCap: 400, unfolding: map[*ssa.Function]bool{}, prepass: map[*ssa.Function]bool{}, recReads: map[*ssa.Function][]recRead{}, pureReads: map[*ssa.Function][]recRead{}, ghostRec: map[*ssa.Function]bool{}}
 }
 
 func (e *Engine) pos(p token.Pos) string {
